@@ -155,3 +155,38 @@ fn kb_get_by_name_icase2() {
         None => assert!(got.is_none()),
     }
 }
+
+// ------------------------------------------------------------------ C14 comparable key on numbers (bounded twin of unit key)
+fn key_of(doc: &[u8]) -> Vec<u8> {
+    let mut k = vec![0xEE];          // non-empty prior buffer: the writer must only append
+    convert_to_comparable(doc, &mut k);
+    assert!(k[0] == 0xEE);
+    k
+}
+
+fn cmp_bytes(a: &[u8], b: &[u8]) -> i8 {
+    let mut i = 0;
+    while i < a.len() && i < b.len() {
+        if a[i] != b[i] { return if a[i] < b[i] { -1 } else { 1 }; }
+        i += 1;
+    }
+    if a.len() < b.len() { -1 } else if a.len() > b.len() { 1 } else { 0 }
+}
+
+/// scalar number documents (Int64 in i8 range incl. negatives, UInt64 in u8 range, Float64 1..4): key order == compare order
+#[kani::proof]
+#[kani::unwind(20)]
+#[kani::stub(crate::parser::parse_value, no_text)]
+fn kb_cmpkey_numbers() {
+    let a = if kani::any() { sc_num2() } else { sc_float9() };
+    let b = sc_num2();
+    let da = layout_scalar(&a.it);
+    let db = layout_scalar(&b.it);
+    let ka = key_of(da.as_slice());
+    let kb = key_of(db.as_slice());
+    let c = compare(da.as_slice(), db.as_slice());
+    assert!(c.is_ok());
+    let o = ord_i8(c.unwrap());
+    assert!(cmp_bytes(&ka, &kb) == o);
+    assert!(o == sc_cmp(&a, &b));
+}
